@@ -135,6 +135,7 @@ async fn exec_receiver(plan: &Value, ctx: &mut Ctx) {
                     Ok((id, chunks)) => {
                         let mi = produced.len();
                         let mut order: Vec<usize> = (0..chunks.len()).collect();
+                        let mut patch_req: Option<usize> = None;
                         match s["mitm"].as_str().unwrap_or("none") {
                             "swap" if chunks.len() >= 2 => {
                                 let a = (s["a"].as_u64().unwrap_or(0) as usize) % chunks.len();
@@ -152,6 +153,11 @@ async fn exec_receiver(plan: &Value, ctx: &mut Ctx) {
                                 order.remove(a);
                                 ctx.fault("drop");
                             }
+                            "patch_req" if chunks.len() >= 2 => {
+                                // Byzantine sender: consecutive sequence numbers but another request id in a later chunk
+                                ctx.fault("mixed_request_ids");
+                                patch_req = Some((s["a"].as_u64().unwrap_or(0) as usize % (chunks.len() - 1)) + 1);
+                            }
                             "hold" => {
                                 // produced (consumes sequence numbers) but not delivered now: replayed later or never
                                 order.clear();
@@ -160,7 +166,12 @@ async fn exec_receiver(plan: &Value, ctx: &mut Ctx) {
                             _ => {}
                         }
                         for k in order {
-                            deliver.push((mi, chunks[k].clone()));
+                            let mut bytes = chunks[k].clone();
+                            if patch_req == Some(k) && bytes.len() >= 24 {
+                                let other = (id + 7777).to_le_bytes();
+                                bytes[20..24].copy_from_slice(&other);
+                            }
+                            deliver.push((mi, bytes));
                         }
                         produced.push((id, chunks));
                     }
@@ -246,7 +257,7 @@ impl Scenario for C12 {
             real: vec!["client SendBuffer", "server MessageWriter", "Chunker::encode / validate_chunks", "server TcpTransport reader loop, process_chunk, last_received_sequence_number", "MessageHandler (Read)"],
             stubbed: vec!["TCP socket", "client-side receiver (exercised by C35's world)"],
             assumptions: vec!["security policy None (sequence headers readable by the MITM stage)"],
-            fault_kinds: vec!["reorder", "duplicate", "drop", "delay", "late_delivery", "replay_accepted_message"],
+            fault_kinds: vec!["reorder", "duplicate", "drop", "delay", "late_delivery", "replay_accepted_message", "mixed_request_ids"],
         }
     }
     fn runs(&self, tier: Tier) -> u64 {
@@ -269,7 +280,7 @@ impl Scenario for C12 {
         for _ in 0..n {
             match rng.below(10) {
                 0..=5 => {
-                    let mitm = *rng.pick(&["none", "none", "none", "none", "swap", "dup", "drop", "hold"]);
+                    let mitm = *rng.pick(&["none", "none", "none", "none", "swap", "dup", "drop", "hold", "patch_req"]);
                     steps.push(json!({"op": "send", "size": *rng.pick(&[100usize, 300, 9000, 17000, 26000]), "mitm": mitm, "a": rng.below(4)}));
                 }
                 6..=8 => steps.push(json!({"op": "replay", "which": rng.below(8)})),
